@@ -184,7 +184,7 @@ func c04ErrHonoured(p *Prog, fn *ssa.Function, call *ssa.Call, ev ssa.Value) (st
 			walk(x)
 		}
 	}
-	if badMsg != "" {
+	if badMsg != "" && !(len(cells) > 0 && errIdx < 0) {
 		return "bad", badMsg
 	}
 	if len(cells) > 0 {
@@ -208,136 +208,425 @@ func c04ErrHonoured(p *Prog, fn *ssa.Function, call *ssa.Call, ev ssa.Value) (st
 	return "undecided", "the error of " + name + " is used in a way the rule does not classify"
 }
 
-// c04CellDiscipline checks the captured-error-variable idiom.
+// c04CellDiscipline checks an error kept in a shared local variable (a
+// captured variable written by a closure, a variable whose address is handed
+// to a helper, a named result): with a forward must-analysis "the variable is
+// nil" over the owner function it requires (i) that a store which may write nil
+// never happens while an earlier error may still be pending (first error wins),
+// and (ii) that no `return ..., nil` is reached while an error may be pending.
 func c04CellDiscipline(p *Prog, g *ssa.Function, store *ssa.Store, name string) (string, string) {
-	// resolve the cell and its owner
-	var cell *ssa.Alloc
+	// The cell: a local error variable (Alloc), or an error-typed field of a local
+	// struct (the state a closure-turned-method keeps in its receiver). It is seen
+	// through "views": the Alloc / its FieldAddrs in the owner, a FreeVar in a
+	// closure, a pointer parameter (or FieldAddrs of it) in a callee.
+	var base *ssa.Alloc // the local variable (error or struct)
+	field := -1         // >= 0: the cell is field #field of the struct in base
 	owner := g
-	switch a := store.Addr.(type) {
-	case *ssa.Alloc:
-		cell = a
-	case *ssa.FreeVar:
-		if b, ok := resolveFreeVar(a).(*ssa.Alloc); ok {
-			cell = b
-			owner = g.Parent()
-		}
+	addr := store.Addr
+	if fa, ok := addr.(*ssa.FieldAddr); ok {
+		field = fa.Field
+		addr = fa.X
 	}
-	if cell == nil || !c04IsError(deref1(cell.Type())) {
+	// resolve addr (in g) to a local variable of an enclosing/calling function
+	findCallers := func(par *ssa.Parameter) (*ssa.Alloc, *ssa.Function) {
+		var al *ssa.Alloc
+		var own *ssa.Function
+		okAll := true
+		idx := c04ParamIndex(g, par)
+		for _, f := range p.Funcs {
+			allInstrs(f, func(in ssa.Instruction) {
+				c, ok := in.(*ssa.Call)
+				if !ok || staticCallee(c) != g || idx >= len(c.Call.Args) {
+					return
+				}
+				if a2, ok := c.Call.Args[idx].(*ssa.Alloc); ok && (al == nil || al == a2) {
+					al, own = a2, f
+				} else {
+					okAll = false
+				}
+			})
+		}
+		if !okAll {
+			return nil, nil
+		}
+		return al, own
+	}
+	switch a := addr.(type) {
+	case *ssa.Alloc:
+		base = a
+	case *ssa.FreeVar:
+		var v ssa.Value = a
+		f := g
+		for i := 0; i < 4; i++ {
+			fv, ok := v.(*ssa.FreeVar)
+			if !ok {
+				break
+			}
+			v = resolveFreeVar(fv)
+			f = f.Parent()
+		}
+		if b, ok := v.(*ssa.Alloc); ok {
+			base, owner = b, f
+		}
+	case *ssa.Parameter:
+		base, owner = findCallers(a)
+	}
+	if base == nil || owner == nil {
+		return "undecided", "the error of " + name + " is stored somewhere other than a local error variable (or an error field of a local struct)"
+	}
+	cellType := deref1(base.Type())
+	if field >= 0 {
+		stt, ok := cellType.Underlying().(*types.Struct)
+		if !ok || field >= stt.NumFields() {
+			return "undecided", "the error of " + name + " is stored in a field of a non-struct"
+		}
+		cellType = stt.Field(field).Type()
+	}
+	if !c04IsError(cellType) {
 		return "undecided", "the error of " + name + " is stored somewhere other than a local error variable"
 	}
-	if c04ErrResult(owner) < 0 {
+	errIdx := c04ErrResult(owner)
+	if errIdx < 0 {
 		return "undecided", "the error variable lives in a function without an error result"
 	}
-	errIdx := c04ErrResult(owner)
-	// views of the cell: in owner the Alloc itself; in closures the bound FreeVar
-	type view struct {
-		fn   *ssa.Function
-		addr ssa.Value
+	// address values denoting the cell, per function
+	cellAddrs := map[*ssa.Function]map[ssa.Value]bool{}
+	addAddr := func(f *ssa.Function, v ssa.Value) {
+		if cellAddrs[f] == nil {
+			cellAddrs[f] = map[ssa.Value]bool{}
+		}
+		cellAddrs[f][v] = true
 	}
-	views := []view{{owner, cell}}
-	var events []ssa.Instruction                          // in owner
-	closureCalls := map[*ssa.Function][]ssa.Instruction{} // closure -> call sites in owner
-	for _, ref := range c04RealRefs(cell) {
-		switch x := ref.(type) {
-		case *ssa.Store:
-			if x.Addr == ssa.Value(cell) {
-				events = append(events, x)
-			} else {
-				return "undecided", "the address of the error variable escapes"
-			}
-		case *ssa.UnOp:
-		case *ssa.MakeClosure:
-			cf := x.Fn.(*ssa.Function)
-			idx := -1
-			for i, b := range x.Bindings {
-				if b == ssa.Value(cell) {
-					idx = i
-				}
-			}
-			if idx < 0 {
-				return "undecided", "closure binding of the error variable not found"
-			}
-			fv := cf.FreeVars[idx]
-			views = append(views, view{cf, fv})
-			stores := false
-			for _, fr := range c04RealRefs(fv) {
-				switch y := fr.(type) {
+	// viewRefs: walk the uses of a view (the base seen from function f): returns whether f stores
+	// into the cell and a reason if the view is used in a way that is not understood
+	var viewRefs func(f *ssa.Function, view ssa.Value, depth int) (bool, string)
+	storers := map[*ssa.Function]bool{}
+	var events []ssa.Instruction // in owner: direct stores and calls of storers
+	eventCallee := map[ssa.Instruction]*ssa.Function{}
+	viewRefs = func(f *ssa.Function, view ssa.Value, depth int) (bool, string) {
+		stores := false
+		cellUse := func(av ssa.Value) string {
+			addAddr(f, av)
+			for _, r2 := range c04RealRefs(av) {
+				switch y := r2.(type) {
 				case *ssa.Store:
-					if y.Addr == ssa.Value(fv) {
-						stores = true
+					if y.Addr != av {
+						return "the address of the error variable is stored"
+					}
+					stores = true
+					if f == owner {
+						events = append(events, y)
 					}
 				case *ssa.UnOp:
+				case *ssa.MakeClosure, *ssa.Call:
+					if field >= 0 {
+						return "the address of the error field is handed on"
+					}
 				default:
-					return "undecided", "the error variable is passed on from inside a closure"
+					return "the error variable is used in an unexpected way in " + f.Name()
 				}
 			}
-			for _, mr := range c04RealRefs(x) {
-				c, ok := mr.(*ssa.Call)
-				if !ok || c.Call.Value != ssa.Value(x) {
-					return "undecided", "the closure writing the error variable is not only called directly"
+			return ""
+		}
+		for _, ref := range c04RealRefs(view) {
+			switch x := ref.(type) {
+			case *ssa.FieldAddr:
+				if field < 0 {
+					return false, "the error variable is not a struct"
 				}
-				if stores {
-					events = append(events, c)
-					closureCalls[cf] = append(closureCalls[cf], c)
+				if x.X == view && x.Field == field {
+					if why := cellUse(x); why != "" {
+						return false, why
+					}
+				}
+			case *ssa.Store:
+				if field >= 0 {
+					if x.Addr == view {
+						continue // the struct is initialised as a whole (zero error)
+					}
+					return false, "the address of the struct holding the error is stored"
+				}
+			case *ssa.UnOp:
+			case *ssa.MakeClosure:
+				if depth > 3 {
+					return false, "closure nesting"
+				}
+				cf := x.Fn.(*ssa.Function)
+				for i, b := range x.Bindings {
+					if b != view {
+						continue
+					}
+					st, why := viewRefs(cf, cf.FreeVars[i], depth+1)
+					if why != "" {
+						return false, why
+					}
+					storers[cf] = st
+					for _, mr := range c04RealRefs(x) {
+						c, ok := mr.(*ssa.Call)
+						if !ok || c.Call.Value != ssa.Value(x) {
+							return false, "the closure writing the error variable is not only called directly"
+						}
+						if st && f == owner {
+							events = append(events, c)
+							eventCallee[c] = cf
+						}
+					}
+					if st {
+						stores = stores || f != owner
+					}
+				}
+			case *ssa.Call:
+				callee := staticCallee(x)
+				passed := false
+				for i, a := range x.Call.Args {
+					if a != view {
+						continue
+					}
+					passed = true
+					if callee == nil || !p.InModule(callee) || len(callee.Blocks) == 0 || i >= len(callee.Params) || depth > 3 {
+						return false, "the address of the error variable is handed to " + c04CalleeName(x)
+					}
+					st, why := viewRefs(callee, callee.Params[i], depth+1)
+					if why != "" {
+						return false, why
+					}
+					storers[callee] = st
+					if st && f == owner {
+						events = append(events, x)
+						eventCallee[x] = callee
+					}
+				}
+				_ = passed
+			default:
+				return false, "the error variable is used in an unexpected way"
+			}
+		}
+		if field < 0 {
+			// the view itself is the cell's address
+			if why := cellUse(view); why != "" {
+				return false, why
+			}
+		}
+		return stores, ""
+	}
+	// cellUse over `view` double-counts FieldAddr/Call refs handled above for the plain-variable case: do the plain case separately
+	if field < 0 {
+		// plain local error variable: refs of the Alloc are stores/loads/closures/calls
+		cellAddrs = map[*ssa.Function]map[ssa.Value]bool{}
+		events = nil
+		var plain func(f *ssa.Function, view ssa.Value, depth int) (bool, string)
+		plain = func(f *ssa.Function, view ssa.Value, depth int) (bool, string) {
+			addAddr(f, view)
+			stores := false
+			for _, ref := range c04RealRefs(view) {
+				switch x := ref.(type) {
+				case *ssa.Store:
+					if x.Addr != view {
+						return false, "the address of the error variable is stored"
+					}
+					stores = true
+					if f == owner {
+						events = append(events, x)
+					}
+				case *ssa.UnOp:
+				case *ssa.MakeClosure:
+					if depth > 3 {
+						return false, "closure nesting"
+					}
+					cf := x.Fn.(*ssa.Function)
+					for i, b := range x.Bindings {
+						if b != view {
+							continue
+						}
+						st, why := plain(cf, cf.FreeVars[i], depth+1)
+						if why != "" {
+							return false, why
+						}
+						storers[cf] = st
+						for _, mr := range c04RealRefs(x) {
+							c, ok := mr.(*ssa.Call)
+							if !ok || c.Call.Value != ssa.Value(x) {
+								if _, isDefer := mr.(*ssa.Defer); isDefer {
+									return false, "the closure writing the error variable is deferred"
+								}
+								return false, "the closure writing the error variable is not only called directly"
+							}
+							if st && f == owner {
+								events = append(events, c)
+								eventCallee[c] = cf
+							}
+						}
+					}
+				case *ssa.Call:
+					callee := staticCallee(x)
+					for i, a := range x.Call.Args {
+						if a != view {
+							continue
+						}
+						if callee == nil || !p.InModule(callee) || len(callee.Blocks) == 0 || i >= len(callee.Params) || depth > 3 {
+							return false, "the address of the error variable is handed to " + c04CalleeName(x)
+						}
+						st, why := plain(callee, callee.Params[i], depth+1)
+						if why != "" {
+							return false, why
+						}
+						storers[callee] = st
+						if st && f == owner {
+							events = append(events, x)
+							eventCallee[x] = callee
+						}
+					}
+				default:
+					return false, "the error variable is used in an unexpected way"
 				}
 			}
-		default:
-			return "undecided", "the error variable is used in an unexpected way"
+			return stores, ""
+		}
+		if _, why := plain(owner, base, 0); why != "" {
+			return "undecided", why
+		}
+	} else {
+		if _, why := viewRefs(owner, base, 0); why != "" {
+			return "undecided", why
 		}
 	}
-	isLoadOfCell := func(fn *ssa.Function, v ssa.Value) bool {
+	views := cellAddrs
+	isEvent := map[ssa.Instruction]bool{}
+	for _, e := range events {
+		isEvent[e] = true
+	}
+	isLoadOfCell := func(v ssa.Value) bool {
 		u, ok := v.(*ssa.UnOp)
-		if !ok || u.Op != token.MUL {
-			return false
+		return ok && u.Op == token.MUL && views[owner][u.X]
+	}
+	// must-analysis: "the cell is nil"
+	step := func(in ssa.Instruction, nilNow bool) bool {
+		if !isEvent[in] {
+			return nilNow
 		}
-		for _, vw := range views {
-			if vw.fn == fn && vw.addr == u.X {
-				return true
-			}
+		if s, ok := in.(*ssa.Store); ok {
+			return isNilConst(s.Val)
 		}
 		return false
 	}
-	nilEdgeLoad := func(fn *ssa.Function, b *ssa.BasicBlock) []ssa.Instruction {
-		var out []ssa.Instruction
-		for _, dc := range domConds(b) {
-			cmp, ok := decodeCond(dc.If.Cond, dc.Branch)
-			if !ok || cmp.Op != token.EQL {
-				continue
-			}
-			for _, pr := range [][2]ssa.Value{{cmp.X, cmp.Y}, {cmp.Y, cmp.X}} {
-				if isLoadOfCell(fn, pr[0]) && isNilConst(pr[1]) {
-					out = append(out, pr[0].(ssa.Instruction))
-				}
+	_ = storers
+	edge := func(b *ssa.BasicBlock, si int, out bool) bool {
+		n := len(b.Instrs)
+		if n == 0 {
+			return out
+		}
+		ifi, ok := b.Instrs[n-1].(*ssa.If)
+		if !ok || b.Succs[0] == b.Succs[1] {
+			return out
+		}
+		cmp, ok := decodeCond(ifi.Cond, si == 0)
+		if !ok || (cmp.Op != token.EQL && cmp.Op != token.NEQ) {
+			return out
+		}
+		var ld ssa.Value
+		switch {
+		case isLoadOfCell(cmp.X) && isNilConst(cmp.Y):
+			ld = cmp.X
+		case isLoadOfCell(cmp.Y) && isNilConst(cmp.X):
+			ld = cmp.Y
+		default:
+			return out
+		}
+		// the load must see the current content: same block, no event after it
+		li := ld.(ssa.Instruction)
+		if li.Block() != b {
+			return out
+		}
+		for _, in := range b.Instrs[instrIndex(li):] {
+			if isEvent[in] {
+				return out
 			}
 		}
-		return out
+		return cmp.Op == token.EQL
+	}
+	nilIn := map[*ssa.BasicBlock]bool{}
+	for _, b := range owner.Blocks {
+		nilIn[b] = true
+	}
+	for changed, rounds := true, 0; changed && rounds < 100; rounds++ {
+		changed = false
+		for _, b := range owner.Blocks {
+			if b.Index != 0 && len(b.Preds) == 0 {
+				continue
+			}
+			in := true
+			if b.Index != 0 {
+				for _, pb := range b.Preds {
+					out := nilIn[pb]
+					for _, ins := range pb.Instrs {
+						out = step(ins, out)
+					}
+					for si, sb := range pb.Succs {
+						if sb == b {
+							if !edge(pb, si, out) {
+								in = false
+							}
+						}
+					}
+				}
+			}
+			if in != nilIn[b] {
+				nilIn[b] = in
+				changed = true
+			}
+		}
+	}
+	nilBefore := func(at ssa.Instruction) bool {
+		cur := nilIn[at.Block()]
+		for _, ins := range at.Block().Instrs {
+			if ins == at {
+				break
+			}
+			cur = step(ins, cur)
+		}
+		return cur
 	}
 	// the sites (in owner) at which this store happens
 	var mySites []ssa.Instruction
 	if g == owner {
 		mySites = []ssa.Instruction{store}
 	} else {
-		mySites = closureCalls[g]
-		if len(mySites) == 0 {
-			return "undecided", "the closure storing the error is never called directly by " + owner.Name()
-		}
-	}
-	// (i) first error wins: if an earlier event can precede this one, the store must be guarded by cell == nil
-	needGuard := false
-	for _, s := range mySites {
 		for _, e := range events {
-			if e != s && c04Reach(e, s) {
-				needGuard = true
+			if eventCallee[e] == g {
+				mySites = append(mySites, e)
 			}
-			if e == s && g != owner && c04Reach(e, s) {
-				needGuard = true // the call site sits in a loop
+		}
+		if len(mySites) == 0 {
+			return "undecided", g.Name() + ", which stores the error, is never called directly by " + owner.Name()
+		}
+	}
+	// (i) first error wins
+	storedNonNil := errKnownNonNil(store.Block(), store.Val)
+	if c, ok := store.Val.(*ssa.Call); ok && (callIs(c, "fmt", "", "Errorf") || callIs(c, "errors", "", "New")) {
+		storedNonNil = true // a freshly made error is never nil: it replaces an error by an error
+	}
+	guarded := false
+	if view := views[g]; g != owner && view != nil {
+		for _, dc := range c04DomConds(store.Block()) {
+			cmp, ok := decodeCond(dc.If.Cond, dc.Branch)
+			if !ok || cmp.Op != token.EQL {
+				continue
+			}
+			for _, pr := range [][2]ssa.Value{{cmp.X, cmp.Y}, {cmp.Y, cmp.X}} {
+				if u, ok := pr[0].(*ssa.UnOp); ok && u.Op == token.MUL && view[u.X] && isNilConst(pr[1]) {
+					guarded = true
+				}
 			}
 		}
 	}
-	if needGuard && len(nilEdgeLoad(g, store.Block())) == 0 {
-		return "bad", "the error of " + name + " overwrites the shared error variable without first checking that it is still nil: a later successful field resets an earlier failure to nil and the malformed expression is accepted"
+	if !storedNonNil && !guarded {
+		for _, s := range mySites {
+			if !nilBefore(s) {
+				return "bad", "the error of " + name + " overwrites the shared error variable while an earlier error may still be pending (the variable is not known to be nil at that point and the store is not guarded by a nil test): a later successful step resets an earlier failure to nil and the malformed expression is accepted"
+			}
+		}
 	}
-	// (ii) every success return of the owner that an event can reach is dominated by a nil test of the cell made after the last event
+	// (ii) no success return while an error may be pending
 	for _, b := range owner.Blocks {
 		if len(b.Instrs) == 0 {
 			continue
@@ -352,38 +641,11 @@ func c04CellDiscipline(p *Prog, g *ssa.Function, store *ssa.Store, name string) 
 				reached = true
 			}
 		}
-		if !reached {
+		if !reached || !isNilConst(ret.Results[errIdx]) {
 			continue
 		}
-		res := ret.Results[errIdx]
-		if isLoadOfCell(owner, res) {
-			stale := false
-			for _, e := range events {
-				if c04Reach(res.(ssa.Instruction), e) && c04Reach(e, ret) {
-					stale = true
-				}
-			}
-			if !stale {
-				continue
-			}
-		}
-		if !isNilConst(res) && !isLoadOfCell(owner, res) {
-			continue // some other non-constant error value: a failure return
-		}
-		okRet := false
-		for _, l := range nilEdgeLoad(owner, b) {
-			fresh := true
-			for _, e := range events {
-				if c04Reach(l, e) && c04Reach(e, ret) {
-					fresh = false
-				}
-			}
-			if fresh {
-				okRet = true
-			}
-		}
-		if !okRet {
-			return "bad", owner.Name() + " can return success (" + p.Pos(ret.Pos()) + ") after " + name + " parked its error in the shared error variable, without testing that variable after the last call that may set it: the malformed expression is accepted"
+		if !nilBefore(ret) {
+			return "bad", owner.Name() + " can return success (" + p.Pos(ret.Pos()) + ") after " + name + " parked its error in the shared error variable, without testing that variable after the last step that may set it: the malformed expression is accepted"
 		}
 	}
 	return "ok", ""
@@ -511,7 +773,7 @@ func (pv *c04Prover) viaHelper(op token.Token, x, y ssa.Value, conds []DomCond, 
 				continue
 			}
 			nRet++
-			if !hp.holds(op, hx, hy, domConds(b), depth+1) {
+			if !hp.holds(op, hx, hy, c04DomConds(b), depth+1) {
 				all = false
 			}
 		}
@@ -566,6 +828,10 @@ func (pv *c04Prover) key(v ssa.Value) string {
 	case *ssa.UnOp:
 		if x.Op == token.MUL {
 			if fa, ok := x.X.(*ssa.FieldAddr); ok {
+				if g, ok := fa.X.(*ssa.Global); ok {
+					// a field of a package-level table (the tables are constants of the program)
+					return "param:@" + g.Name() + "." + fieldIDOfAddr(fa).Field
+				}
 				if a, ok := fa.X.(*ssa.Alloc); ok {
 					if par := c04ParamOfAlloc(a); par != nil {
 						return "param:" + par.Name() + "." + fieldIDOfAddr(fa).Field
@@ -639,6 +905,10 @@ func c04IsUnsigned(t types.Type) bool {
 
 // condsOnEdge: facts known when control passes from pred to succ.
 func c04CondsOnEdge(pred, succ *ssa.BasicBlock) []DomCond {
+	return c04ExpandConds(c04CondsOnEdgeRaw(pred, succ))
+}
+
+func c04CondsOnEdgeRaw(pred, succ *ssa.BasicBlock) []DomCond {
 	out := domConds(pred)
 	if n := len(pred.Instrs); n > 0 {
 		if ifi, ok := pred.Instrs[n-1].(*ssa.If); ok && pred.Succs[0] != pred.Succs[1] {
@@ -816,7 +1086,7 @@ func c04RangeFacts(p *Prog, r *Report, rule string, fn *ssa.Function, call *ssa.
 	}
 	a0, a1, a2 := call.Call.Args[0], call.Call.Args[1], call.Call.Args[2]
 	pv := &c04Prover{fn: fn, InModule: p.InModule}
-	conds := domConds(call.Block())
+	conds := c04DomConds(call.Block())
 	zero := ssa.NewConst(constant.MakeInt64(0), a2.Type())
 	type ob struct {
 		what string
@@ -824,18 +1094,31 @@ func c04RangeFacts(p *Prog, r *Report, rule string, fn *ssa.Function, call *ssa.
 		msg  string
 	}
 	var obs []ob
-	if bpar != nil {
+	// a call outside a function with a table parameter whose limits are read straight from one
+	// package-level table: that table plays the parameter's part
+	tableName := ""
+	if bpar == nil {
+		k0 := pv.key(a0)
+		if strings.HasPrefix(k0, "param:@") && strings.HasSuffix(k0, "."+minF) {
+			tableName = strings.TrimSuffix(strings.TrimPrefix(k0, "param:"), "."+minF)
+		}
+	}
+	if bpar != nil || tableName != "" {
+		pname := tableName
+		if bpar != nil {
+			pname = bpar.Name()
+		}
 		pv.MinF, pv.MaxF = minF, maxF
 		// find representative values for r.min / r.max: any value in fn whose key is the param field
 		var minV, maxV ssa.Value
 		allInstrs(fn, func(in ssa.Instruction) {
 			if v, ok := in.(ssa.Value); ok {
 				switch pv.key(v) {
-				case "param:" + bpar.Name() + "." + minF:
+				case "param:" + pname + "." + minF:
 					if minV == nil {
 						minV = v
 					}
-				case "param:" + bpar.Name() + "." + maxF:
+				case "param:" + pname + "." + maxF:
 					if maxV == nil {
 						maxV = v
 					}
@@ -843,10 +1126,10 @@ func c04RangeFacts(p *Prog, r *Report, rule string, fn *ssa.Function, call *ssa.
 			}
 		})
 		if minV == nil {
-			minV = &c04Virt{k: "param:" + bpar.Name() + "." + minF}
+			minV = &c04Virt{k: "param:" + pname + "." + minF}
 		}
 		if maxV == nil {
-			maxV = &c04Virt{k: "param:" + bpar.Name() + "." + maxF}
+			maxV = &c04Virt{k: "param:" + pname + "." + maxF}
 		}
 		obs = append(obs,
 			ob{"start >= min", pv.holds(token.GEQ, a0, minV, conds, 0), "a range may start below the minimum of the field (day-of-month 0, month 0): such expressions are accepted, with bits that never match or that mean something else, instead of being refused"},
@@ -882,7 +1165,8 @@ func c04RangeFacts(p *Prog, r *Report, rule string, fn *ssa.Function, call *ssa.
 
 func (st *c04State) parserFuncs() []*ssa.Function {
 	p := st.p
-	roots := []string{"Parser.Parse", "ParseStandard", "normalizeFields", "getField", "getRange", "parseIntOrName", "mustParseInt", "parseDescriptor"}
+	// exported entry points only; everything else is reached through the static call closure
+	roots := []string{"Parser.Parse", "ParseStandard"}
 	var out []*ssa.Function
 	seen := map[*ssa.Function]bool{}
 	var add func(f *ssa.Function)
@@ -916,8 +1200,12 @@ func (st *c04State) checkErrflow() {
 
 func (st *c04State) checkRange() {
 	p, r := st.p, st.r
-	getBits := p.Func("cron", "getBits")
-	bt := st.pkgPath + ".bounds"
+	getBits := st.builder
+	if getBits == nil {
+		r.Undecide("the bit-set builder of package cron (the one function with signature (uint, uint, uint) uint64) does not resolve: the range facts cannot be checked")
+		return
+	}
+	bt := st.boundsKey
 	n := 0
 	doc, _ := c04PackageDoc(p.Pkg("cron"))
 	nstepDoc := c04DocHasNStep(doc)
@@ -941,14 +1229,14 @@ func (st *c04State) checkRange() {
 			}
 			ord++
 			n++
-			c04RangeFacts(p, r, "C04.P4-range", fn, call, ord, bpar, "min", "max")
+			c04RangeFacts(p, r, "C04.P4-range", fn, call, ord, bpar, st.minF, st.maxF)
 			if nstepDoc {
-				c04NStepRule(p, r, "C04.P5-nstep", fn, call, ord, bpar, "min", "max")
+				c04NStepRule(p, r, "C04.P5-nstep", fn, call, ord, bpar, st.minF, st.maxF)
 			}
 		})
 	}
 	if n == 0 {
-		r.Undecide("no call of cron.getBits found")
+		r.Undecide("no call of the bit-set builder %s found", FuncName(p, getBits))
 	}
 	// getBits itself must not be reachable other than by static calls (a function value would bypass the facts)
 	for _, fn := range p.FuncsOfPkg("cron") {
@@ -956,7 +1244,7 @@ func (st *c04State) checkRange() {
 			for _, op := range in.Operands(nil) {
 				if *op == ssa.Value(getBits) {
 					if c, ok := in.(ssa.CallInstruction); !ok || c.Common().Value != ssa.Value(getBits) {
-						r.Undecide("%s uses cron.getBits as a value", FuncName(p, fn))
+						r.Undecide("%s uses the bit-set builder as a value", FuncName(p, fn))
 					}
 				}
 			}
@@ -966,16 +1254,16 @@ func (st *c04State) checkRange() {
 
 func (st *c04State) checkCount() {
 	p, r := st.p, st.r
-	nf := p.Func("cron", "normalizeFields")
+	nf := st.normaliser
 	rule := "C04.P4-count"
-	if len(nf.Params) == 0 {
-		r.Undecide("normalizeFields has no parameters")
+	if nf == nil || st.normaliserFieldsArg < 0 || st.normaliserFieldsArg >= len(nf.Params) {
+		r.Undecide("Parser.Parse: the function that expands the raw columns (takes the result of strings.Fields, returns []string) was not found: the field-count check cannot be located")
 		return
 	}
-	fields := nf.Params[0]
+	fields := nf.Params[st.normaliserFieldsArg]
 	errIdx := c04ErrResult(nf)
 	if errIdx < 0 {
-		r.Violation(rule, "cron.normalizeFields: at least the required number of fields", p.Pos(nf.Pos()), "normalizeFields no longer returns an error: a wrong number of fields cannot be refused")
+		r.Violation(rule, "cron column count: at least the required number of fields", p.Pos(nf.Pos()), FuncName(p, nf)+" no longer returns an error: a wrong number of fields cannot be refused")
 		return
 	}
 	isLen := func(v ssa.Value) bool {
@@ -984,6 +1272,7 @@ func (st *c04State) checkCount() {
 	}
 	lowerAll, upperAll := true, true
 	nRet := 0
+	opaque := ""
 	var pos token.Pos
 	for _, b := range nf.Blocks {
 		if len(b.Instrs) == 0 {
@@ -995,24 +1284,43 @@ func (st *c04State) checkCount() {
 		}
 		nRet++
 		pos = ret.Pos()
-		lower, upper := false, false
-		for _, dc := range domConds(b) {
-			cmp, ok := decodeCond(dc.If.Cond, dc.Branch)
-			if !ok {
-				continue
-			}
+		lower, upper, op := c04CountFacts(p, b, isLen, func(v ssa.Value) bool { return v == ssa.Value(fields) }, 0)
+		if op != "" {
+			opaque = op
+		}
+		lowerAll = lowerAll && lower
+		upperAll = upperAll && upper
+	}
+	if nRet == 0 {
+		r.Undecide("%s has no success return", FuncName(p, nf))
+		return
+	}
+	if opaque != "" && !(lowerAll && upperAll) {
+		r.Undecide("%s: the number of fields is handed to %s, which could not be consulted: the field-count check is not decided", FuncName(p, nf), opaque)
+		return
+	}
+	r.Check(lowerAll, rule, "cron column count: at least the required number of fields", p.Pos(pos),
+		"every success return is dominated by a lower check of len(fields)",
+		"the column normaliser can succeed without len(fields) having been checked from below: an expression with too few fields is not refused (the missing columns are read past the end of the slice or filled from the wrong columns)")
+	r.Check(upperAll, rule, "cron column count: at most the allowed number of fields", p.Pos(pos),
+		"every success return is dominated by an upper check of len(fields)",
+		"the column normaliser can succeed without len(fields) having been checked from above: an expression with too many fields is accepted and its trailing fields are silently ignored instead of being refused")
+}
+
+// c04CountFacts: do the conditions dominating block b bound the counted length
+// from below / from above? Comparisons may sit in a validation helper that
+// receives the length (or the slice) and whose success returns are consulted.
+func c04CountFacts(p *Prog, b *ssa.BasicBlock, isLen func(ssa.Value) bool, isSlice func(ssa.Value) bool, depth int) (lower, upper bool, opaque string) {
+	for _, dc := range c04DomConds(b) {
+		if cmp, ok := decodeCond(dc.If.Cond, dc.Branch); ok {
 			op := cmp.Op
-			var other ssa.Value
 			switch {
 			case isLen(cmp.X):
-				other = cmp.Y
 			case isLen(cmp.Y):
-				other = cmp.X
 				op = c04FlipOp(op)
 			default:
-				continue
+				op = token.ILLEGAL
 			}
-			_ = other
 			switch op {
 			case token.GEQ, token.GTR:
 				lower = true
@@ -1022,19 +1330,91 @@ func (st *c04State) checkCount() {
 				lower, upper = true, true
 			}
 		}
-		lowerAll = lowerAll && lower
-		upperAll = upperAll && upper
+		// a guard call: `h(...) == nil` / `h(...)` true
+		var call *ssa.Call
+		wantNilErr, wantBool := false, false
+		if cmp, ok := decodeCond(dc.If.Cond, dc.Branch); ok && cmp.Op == token.EQL {
+			res := cmp.X
+			if isNilConst(res) {
+				res = cmp.Y
+			} else if !isNilConst(cmp.Y) {
+				res = nil
+			}
+			if ex, ok := res.(*ssa.Extract); ok {
+				res = ex.Tuple
+			}
+			if c, ok := res.(*ssa.Call); ok {
+				call, wantNilErr = c, true
+			}
+		}
+		want := true
+		if c, val, ok := boolCallCond(dc.If.Cond, dc.Branch); ok && call == nil {
+			call, wantBool, want = c, true, val
+		}
+		if call == nil {
+			continue
+		}
+		h := staticCallee(call)
+		if h == nil || !p.InModule(h) {
+			continue
+		}
+		idx, asSlice := -1, false
+		for i, a := range call.Call.Args {
+			if isLen(a) {
+				idx = i
+			} else if isSlice(a) {
+				idx, asSlice = i, true
+			}
+		}
+		if idx < 0 || idx >= len(h.Params) {
+			continue
+		}
+		if len(h.Blocks) == 0 || depth > 2 {
+			opaque = h.Name()
+			continue
+		}
+		par := h.Params[idx]
+		hLen := func(v ssa.Value) bool { return !asSlice && v == ssa.Value(par) }
+		hSlice := func(v ssa.Value) bool { return asSlice && v == ssa.Value(par) }
+		if asSlice {
+			hLen = func(v ssa.Value) bool {
+				c, ok := v.(*ssa.Call)
+				return ok && builtinName(c) == "len" && len(c.Call.Args) == 1 && c.Call.Args[0] == ssa.Value(par)
+			}
+		}
+		hl, hu, n := true, true, 0
+		errIdx := c04ErrResult(h)
+		for _, hb := range h.Blocks {
+			if len(hb.Instrs) == 0 {
+				continue
+			}
+			ret, ok := hb.Instrs[len(hb.Instrs)-1].(*ssa.Return)
+			if !ok {
+				continue
+			}
+			switch {
+			case wantNilErr && errIdx >= 0 && isNilConst(ret.Results[errIdx]):
+			case wantBool && len(ret.Results) == 1:
+				if k, ok := ret.Results[0].(*ssa.Const); ok && k.Value != nil {
+					if (k.Value.String() == "true") != want {
+						continue
+					}
+				}
+			default:
+				continue
+			}
+			n++
+			l2, u2, op2 := c04CountFacts(p, hb, hLen, hSlice, depth+1)
+			if op2 != "" {
+				opaque = op2
+			}
+			hl, hu = hl && l2, hu && u2
+		}
+		if n > 0 {
+			lower, upper = lower || hl, upper || hu
+		}
 	}
-	if nRet == 0 {
-		r.Undecide("normalizeFields has no success return")
-		return
-	}
-	r.Check(lowerAll, rule, "cron.normalizeFields: at least the required number of fields", p.Pos(pos),
-		"every success return is dominated by a lower check of len(fields)",
-		"normalizeFields can succeed without len(fields) having been checked from below: an expression with too few fields is not refused (the missing columns are read past the end of the slice or filled from the wrong columns)")
-	r.Check(upperAll, rule, "cron.normalizeFields: at most the allowed number of fields", p.Pos(pos),
-		"every success return is dominated by an upper check of len(fields)",
-		"normalizeFields can succeed without len(fields) having been checked from above: an expression with too many fields is accepted and its trailing fields are silently ignored instead of being refused")
+	return
 }
 
 func (st *c04State) checkNonNeg() {
@@ -1066,7 +1446,7 @@ func (st *c04State) checkNonNeg() {
 			n++
 			pv := &c04Prover{fn: fn}
 			zero := ssa.NewConst(constant.MakeInt64(0), cv.X.Type())
-			r.Check(pv.holds(token.GEQ, cv.X, zero, domConds(cv.Block()), 0), rule, FuncName(p, fn)+" uint(parsed number)", p.Pos(instrPos(cv)),
+			r.Check(pv.holds(token.GEQ, cv.X, zero, c04DomConds(cv.Block()), 0), rule, FuncName(p, fn)+" uint(parsed number)", p.Pos(instrPos(cv)),
 				"conversion dominated by a non-negativity check",
 				"a parsed number is converted to unsigned without a check that it is not negative: a step such as '*/-1' becomes 2^64-1, passes the zero-step check and makes getBits walk downwards from the start, setting bits below the field's minimum — the expression is accepted and given a meaning instead of being refused")
 		})
@@ -1080,93 +1460,129 @@ func (st *c04State) checkNonNeg() {
 func (st *c04State) checkEvery() {
 	p, r := st.p, st.r
 	rule := "C04.D2-every"
-	pd := p.Func("cron", "parseDescriptor")
 	every := p.Func("cron", "Every")
 	cds := st.pkgPath + ".ConstantDelaySchedule"
-	// every value of type ConstantDelaySchedule converted to the Schedule result of parseDescriptor comes from Every(ParseDuration result)
+	// every ConstantDelaySchedule the parser layer turns into a Schedule comes from Every
 	nMI := 0
-	bad := ""
+	bad, undec := "", ""
 	var pos token.Pos
-	allInstrs(pd, func(in ssa.Instruction) {
-		mi, ok := in.(*ssa.MakeInterface)
-		if !ok || namedKey(mi.X.Type()) != cds {
-			return
-		}
-		nMI++
-		pos = mi.Pos()
-		call, ok := mi.X.(*ssa.Call)
-		if !ok || staticCallee(call) != every {
-			bad = "parseDescriptor builds a ConstantDelaySchedule without going through Every: '@every 500ms' (or 1.5s) keeps a delay below one second / with a sub-second part instead of being rounded to whole seconds, at least one"
-			return
-		}
-		src := call.Call.Args[0]
-		if ex, ok := src.(*ssa.Extract); ok {
-			src = ex.Tuple
-		}
-		if c, ok := src.(*ssa.Call); !ok || !callIs(c, "time", "", "ParseDuration") {
-			r.Note("parseDescriptor: the argument of Every is not directly the result of time.ParseDuration")
-		}
-	})
-	if nMI == 0 {
-		r.Violation(rule, "cron.parseDescriptor @every", p.Pos(pd.Pos()), "parseDescriptor no longer returns a ConstantDelaySchedule: '@every d' is not supported although documented")
-	} else {
-		r.Check(bad == "", rule, "cron.parseDescriptor @every", p.Pos(pos), "'@every d' = Every(d)", bad)
-	}
-	// ConstantDelaySchedule.Next: result = t.Add(x) with x depending on t.Nanosecond(), or on a Truncate'd receiver
-	nx := p.Func("cron", "ConstantDelaySchedule.Next")
-	construct := "cron.ConstantDelaySchedule.Next truncation"
-	verdict, msg := "undecided", "the returned value is not a time.Time.Add call"
-	for _, b := range nx.Blocks {
-		if len(b.Instrs) == 0 {
+	for _, fn := range st.parserFuncs() {
+		if fn == every {
 			continue
 		}
-		ret, ok := b.Instrs[len(b.Instrs)-1].(*ssa.Return)
-		if !ok || len(ret.Results) != 1 {
-			continue
-		}
-		n, call, ok := c04TimeCall(ret.Results[0])
-		if !ok || n != "Add" {
-			continue
-		}
-		recv, d := call.Call.Args[0], call.Call.Args[1]
-		delayField := FieldID{cds, "Delay"}
-		lin, okLin := c04Linear(d, func(v ssa.Value) (string, bool) {
-			if n, c, ok := c04TimeCall(v); ok && n == "Nanosecond" && c.Call.Args[0] == recv {
-				return "n", true
+		allInstrs(fn, func(in ssa.Instruction) {
+			mi, ok := in.(*ssa.MakeInterface)
+			if !ok || namedKey(mi.X.Type()) != cds {
+				return
 			}
-			if id, _, ok := fieldOfValue(v); ok && id == delayField {
-				if _, isLoad := v.(*ssa.UnOp); isLoad {
-					return "D", true
+			nMI++
+			pos = mi.Pos()
+			okAll := true
+			c04ThroughPhis(mi.X, func(v ssa.Value) bool {
+				if _, isPhi := v.(*ssa.Phi); isPhi {
+					return false
+				}
+				if call, ok := v.(*ssa.Call); ok && staticCallee(call) == every {
+					return false
+				}
+				okAll = false
+				// classified bad shape: a literal whose Delay is the parsed duration itself
+				tb := newC04TermBuilder(p)
+				t := tb.Term(tb.Root(fn), v)
+				direct := false
+				if t.Op == "struct" || t.Op == "load" || t.Op == "alloc" {
+					direct = t.contains(func(x *c04T) bool { return x.Op == "ext:time.ParseDuration" }) && !t.contains(func(x *c04T) bool {
+						return strings.HasPrefix(x.Op, "bin:") || strings.HasPrefix(x.Op, "builtin:") || x.Op == "choice" || x.Op == "dur:Truncate"
+					})
+				}
+				if direct {
+					bad = "the parser builds a ConstantDelaySchedule from the parsed duration without going through Every: '@every 500ms' keeps a delay below one second instead of at least one second"
+				} else {
+					undec = "a ConstantDelaySchedule is built in " + FuncName(p, fn) + " without Every: whether its Delay is at least one second is not decided"
+				}
+				return false
+			})
+			_ = okAll
+		})
+	}
+	construct := "cron descriptor @every"
+	switch {
+	case nMI == 0:
+		r.Violation(rule, construct, p.Pos(p.Func("cron", "Parser.Parse").Pos()), "no function reachable from Parse returns a ConstantDelaySchedule: '@every d' is not supported although documented")
+	case bad != "":
+		r.Violation(rule, construct, p.Pos(pos), bad)
+	case undec != "":
+		r.Undecide("%s", undec)
+	default:
+		r.OK(rule, construct, p.Pos(pos), "'@every d' = Every(d)")
+	}
+	// ConstantDelaySchedule.Next = t.Add(Delay - t.Nanosecond()) or t.Truncate(second).Add(Delay), wherever it is computed
+	nx := p.Func("cron", "ConstantDelaySchedule.Next")
+	construct = "cron.ConstantDelaySchedule.Next truncation"
+	tb := newC04TermBuilder(p)
+	root := tb.Root(nx)
+	var tPar *c04T
+	for _, par := range nx.Params {
+		if c04IsTimeType(par.Type()) {
+			tPar = root.env[par]
+		}
+	}
+	verdict, msg := "undecided", "the returned value is not a time.Time.Add of the argument"
+	var judge func(t *c04T) (string, string)
+	judge = func(t *c04T) (string, string) {
+		if t.Op == "choice" {
+			worst, wmsg := "ok", ""
+			for _, a := range t.Args {
+				v, m := judge(a)
+				if v == "bad" || (v == "undecided" && worst == "ok") {
+					worst, wmsg = v, m
+				} else if wmsg == "" {
+					wmsg = m
 				}
 			}
-			if f, ok := v.(*ssa.Field); ok && fieldIDOfField(f) == delayField {
+			return worst, wmsg
+		}
+		if t.Op != "tm:Add" || len(t.Args) != 2 || tPar == nil {
+			return "undecided", "the returned value is not a time.Time.Add of the argument"
+		}
+		recv, d := t.Args[0], t.Args[1]
+		lin, okLin := c04LinT(d, func(x *c04T) (string, bool) {
+			if x.Op == "tm:Nanosecond" && len(x.Args) == 1 && x.Args[0].Key() == tPar.Key() {
+				return "n", true
+			}
+			if x.Op == "load" && x.Name == cds+".Delay" {
 				return "D", true
 			}
 			return "", false
 		})
-		_, recvIsParam := recv.(*ssa.Parameter)
+		recvIsT := recv.Key() == tPar.Key()
 		switch {
-		case okLin && recvIsParam && lin.coef["n"] == -1 && lin.coef["D"] == 1 && lin.k == 0:
-			verdict, msg = "ok", "t.Add(Delay - t.Nanosecond()) = t truncated to the second plus Delay"
-		case okLin && recvIsParam && lin.coef["n"] == 0:
-			verdict, msg = "bad", "ConstantDelaySchedule.Next adds a duration that does not depend on t.Nanosecond() to the untruncated t: the sub-second part of t is kept, so '@every d' does not yield t truncated to the second plus d"
-		case okLin && recvIsParam:
-			verdict, msg = "bad", fmt.Sprintf("ConstantDelaySchedule.Next returns t + %d*Delay + %d*t.Nanosecond() + %dns, not t truncated to the second plus Delay", lin.coef["D"], lin.coef["n"], lin.k)
-		case c04DependsOnNanosecond(d):
-			verdict, msg = "ok", "t.Add(delay - f(t.Nanosecond()))"
-		default:
-			if rn, rc, ok := c04TimeCall(recv); ok && rn == "Truncate" {
-				if k, ok := c04ConstInt(rc.Call.Args[1]); ok && k == 1e9 {
-					if okLin && lin.coef["D"] == 1 && lin.k == 0 && lin.coef["n"] == 0 {
-						verdict, msg = "ok", "t.Truncate(second).Add(Delay)"
-					}
-					break
-				}
-			}
-			if recvIsParam {
-				verdict, msg = "bad", "ConstantDelaySchedule.Next adds a duration that does not depend on t.Nanosecond() to the untruncated t: the sub-second part of t is kept, so '@every d' does not yield t truncated to the second plus d"
-			}
+		case okLin && recvIsT && lin.coef["n"] == -1 && lin.coef["D"] == 1 && lin.k == 0:
+			return "ok", "t.Add(Delay - t.Nanosecond()) = t truncated to the second plus Delay"
+		case okLin && recvIsT && lin.coef["n"] == 0:
+			return "bad", "ConstantDelaySchedule.Next adds a duration that does not depend on t.Nanosecond() to the untruncated t: the sub-second part of t is kept, so '@every d' does not yield t truncated to the second plus d"
+		case okLin && recvIsT:
+			return "bad", fmt.Sprintf("ConstantDelaySchedule.Next returns t + %d*Delay + %d*t.Nanosecond() + %dns, not t truncated to the second plus Delay", lin.coef["D"], lin.coef["n"], lin.k)
+		case recvIsT && c04TermHasAccessor(d, "Nanosecond"):
+			return "ok", "t.Add(delay - f(t.Nanosecond()))"
+		case recv.Op == "tm:Truncate" && len(recv.Args) == 2 && recv.Args[0].Key() == tPar.Key() && recv.Args[1].IsK && recv.Args[1].K == 1e9 && okLin && lin.coef["D"] == 1 && lin.k == 0 && lin.coef["n"] == 0:
+			return "ok", "t.Truncate(second).Add(Delay)"
+		case recvIsT:
+			return "bad", "ConstantDelaySchedule.Next adds a duration that does not depend on t.Nanosecond() to the untruncated t: the sub-second part of t is kept, so '@every d' does not yield t truncated to the second plus d"
 		}
+		return "undecided", "the returned value is not a recognised form of t truncated to the second plus Delay"
+	}
+	var rets []*c04T
+	for _, b := range nx.Blocks {
+		if len(b.Instrs) == 0 {
+			continue
+		}
+		if ret, ok := b.Instrs[len(b.Instrs)-1].(*ssa.Return); ok && len(ret.Results) == 1 {
+			rets = append(rets, tb.Term(root, ret.Results[0]))
+		}
+	}
+	if len(rets) > 0 {
+		verdict, msg = judge(c04Choice(rets))
 	}
 	switch verdict {
 	case "ok":
@@ -1257,6 +1673,43 @@ func (st *c04State) checkEveryDelay() {
 				}
 			}
 		case *ssa.Call:
+			if bn := builtinName(x); bn == "max" || bn == "min" {
+				res := -1
+				if bn == "min" {
+					res = 1
+				}
+				sawZero := false
+				for _, a := range x.Call.Args {
+					switch ge(a, conds, depth+1) {
+					case 1:
+						if bn == "max" {
+							res = 1
+						}
+					case 0:
+						sawZero = true
+						if bn == "min" {
+							return 0
+						}
+					default:
+						if bn == "min" && res == 1 {
+							res = -1
+						}
+					}
+				}
+				if bn == "max" && res != 1 && sawZero {
+					// every argument can be below one second
+					all0 := true
+					for _, a := range x.Call.Args {
+						if ge(a, conds, depth+1) != 0 {
+							all0 = false
+						}
+					}
+					if all0 {
+						return 0
+					}
+				}
+				return res
+			}
 			if obj := calleeObj(x); obj != nil && obj.Pkg() != nil && obj.Pkg().Path() == "time" && obj.Name() == "Truncate" && len(x.Call.Args) == 2 {
 				if k, ok := c04ConstInt(x.Call.Args[1]); ok && k > 0 && int64(1e9)%k == 0 {
 					return ge(x.Call.Args[0], conds, depth+1)
@@ -1269,7 +1722,7 @@ func (st *c04State) checkEveryDelay() {
 	var pos token.Pos
 	for _, s := range stores {
 		pos = s.Pos()
-		switch ge(s.Val, domConds(s.Block()), 0) {
+		switch ge(s.Val, c04DomConds(s.Block()), 0) {
 		case 0:
 			worst = 0
 		case -1:
@@ -1332,4 +1785,86 @@ func c04FixtureRules(fp *Prog, fr *Report) {
 			}
 		})
 	}
+}
+
+func c04ParamIndex(fn *ssa.Function, v ssa.Value) int {
+	for i, p := range fn.Params {
+		if ssa.Value(p) == v {
+			return i
+		}
+	}
+	return -1
+}
+
+// c04DomConds: the branch facts dominating b (guard.go), with boolean merges
+// expanded: a condition that is the phi of a short-circuit `a && b` (true) or
+// `a || b` (false) — go/ssa evaluates such expressions to a value in switch
+// cases and assignments — contributes the facts of the one incoming edge that
+// can produce that outcome.
+func c04DomConds(b *ssa.BasicBlock) []DomCond {
+	return c04ExpandConds(domConds(b))
+}
+
+func c04ExpandConds(in []DomCond) []DomCond {
+	var out []DomCond
+	seen := map[string]bool{}
+	var add func(cond ssa.Value, branch bool, ifi *ssa.If, depth int)
+	add = func(cond ssa.Value, branch bool, ifi *ssa.If, depth int) {
+		for {
+			u, ok := cond.(*ssa.UnOp)
+			if !ok || u.Op != token.NOT {
+				break
+			}
+			cond, branch = u.X, !branch
+			ifi = nil
+		}
+		k := fmt.Sprintf("%p/%v", cond, branch)
+		if seen[k] {
+			return
+		}
+		seen[k] = true
+		if ifi == nil || ifi.Cond != cond {
+			ifi = &ssa.If{Cond: cond}
+		}
+		out = append(out, DomCond{ifi, branch})
+		ph, ok := cond.(*ssa.Phi)
+		if !ok || depth > 4 {
+			return
+		}
+		cand := -1
+		for i, e := range ph.Edges {
+			if k, isK := e.(*ssa.Const); isK && k.Value != nil {
+				if (k.Value.String() == "true") != branch {
+					continue // this edge yields the other outcome
+				}
+			}
+			if cand >= 0 {
+				return // two edges can yield this outcome: nothing is known
+			}
+			cand = i
+		}
+		if cand < 0 {
+			return
+		}
+		e, pb := ph.Edges[cand], ph.Block().Preds[cand]
+		if _, isK := e.(*ssa.Const); !isK {
+			add(e, branch, nil, depth+1)
+		}
+		for _, dc := range domConds(pb) {
+			add(dc.If.Cond, dc.Branch, dc.If, depth+1)
+		}
+		if n := len(pb.Instrs); n > 0 {
+			if pif, ok := pb.Instrs[n-1].(*ssa.If); ok && pb.Succs[0] != pb.Succs[1] {
+				if pb.Succs[0] == ph.Block() {
+					add(pif.Cond, true, pif, depth+1)
+				} else if pb.Succs[1] == ph.Block() {
+					add(pif.Cond, false, pif, depth+1)
+				}
+			}
+		}
+	}
+	for _, dc := range in {
+		add(dc.If.Cond, dc.Branch, dc.If, 0)
+	}
+	return out
 }
